@@ -27,21 +27,32 @@ KERNELS = ['Gen/Parallelize.v: par_take', 'Gen/Parallelize.v: par_single',
 
 OPS = ['groupByKey', 'reduceByKey', 'foldByKey', 'aggregateByKey', 'countByKey', 'cogroup', 'join',
        'leftOuterJoin', 'rightOuterJoin', 'fullOuterJoin', 'subtractByKey', 'subtract', 'distinct',
-       'intersection', 'cartesian', 'sortByKey', '_leftSemiJoin', '_leftAntiJoin']
+       'intersection', 'cartesian', 'sortByKey', '_leftSemiJoin', '_leftAntiJoin', 'repartition', 'partitionBy',
+       'sequence']
 (GROUP, REDUCE, FOLD, AGG, COUNT, COGROUP, JOIN, LOJ, ROJ, FOJ, SUBK, SUB, DISTINCT, INTER, CART, SORT, SEMI,
- ANTI) = range(18)
+ ANTI, REPART, PARTBY, SEQ) = range(21)
+SINGLE_OPS = 18       # the ops drawn by the random / exhaustive generators of single calls
+JOIN_FAMILY = [COGROUP, JOIN, LOJ, ROJ, FOJ, SUBK, SEMI, ANTI]
 BINARY = {COGROUP, JOIN, LOJ, ROJ, FOJ, SUBK, SUB, INTER, CART, SEMI, ANTI}
 KEYED = {GROUP, REDUCE, FOLD, AGG, COUNT, COGROUP, JOIN, LOJ, ROJ, FOJ, SUBK, SORT, SEMI, ANTI}
-HAS_NP = {GROUP, REDUCE, COGROUP, JOIN, LOJ, ROJ, FOJ, SUBK, SUB, DISTINCT, SORT}
-SET_ORDERED = {COGROUP, FOJ, SUBK, DISTINCT, INTER}
+HAS_NP = {GROUP, REDUCE, COGROUP, JOIN, LOJ, ROJ, FOJ, SUBK, SUB, DISTINCT, SORT, REPART, PARTBY}
+SET_ORDERED = {COGROUP, FOJ, SUBK, DISTINCT, INTER, REPART, PARTBY}
 
-RULE = ('cases (op, partitions of self, partitions of other, numPartitions, function code): every op of the property '
-        '(+ the semi/anti joins of the anchors) x key-value lists of length 0-6 over a small key domain '
+RULE = ('cases (op, self, other, numPartitions, function code | steps); an input is either its explicit partitions '
+        '(built with _parallelize_partitions) or (n, xs) = the real Context.parallelize(xs, n). '
+        '(1) every op of the property (+ semi/anti joins) x key-value lists of length 0-6 over a small key domain '
         '(ints, None, tuples, strings; duplicates frequent; an unhashable key now and then -> TypeError) with values '
-        'from ints, strings, None, lists, tuples x random partitionings of both sides (empty partitions and zero '
-        'partitions included) x numPartitions in {None,0,1,2,3,5,17}; exhaustive for both sides of length <= 2 over '
-        '2 keys x all partitionings into <= 2 cuts; non-trivial = at least 2 input elements in total or an error; '
-        'distinct by canonical JSON of the case')
+        'from ints, strings, None, lists, tuples x random partitionings of both sides (empty and zero partitions '
+        'included) x numPartitions in {None,0,1,2,3,5,7,11,13,17,23,32}; exhaustive for both sides of length <= 2 '
+        'over 2 keys x all partitionings into <= 2 (quick) / 3 pieces. '
+        '(2) sequences: 2-5 join-family calls (join, outer joins, cogroup, subtractByKey, semi/anti; either RDD as '
+        'self) on the SAME two RDD objects, each evaluated (glom, collect, count) before the next call; all ordered '
+        'pairs of calls on a fixed pair with keys missing on either side, plus random sequences. '
+        '(3) boundary sweep: element count L in 1..40 (distinct keys) x partition count n in 1..32 for '
+        'groupByKey/reduceByKey/join/distinct/sortByKey/repartition/partitionBy, n used both as the slice count of a '
+        'real parallelize input and as numPartitions (quick: 2 cases per (L, n) through the correspondence and the '
+        'full sweep judged by the oracle alone; thorough: the full sweep through the correspondence). '
+        'non-trivial = at least 2 input elements in total or an error; distinct by canonical JSON of the case')
 ASSUMPTIONS = [
     'key / element equality is structural on the generated domain (no mixing of True/1/1.0, no NaN, no floats)',
     'Python set iteration order is not modelled: set-ordered results are compared after canonical sorting',
@@ -131,10 +142,23 @@ def group_canon(pairs):
 
 
 def flat(parts):
+    """Elements of an input: explicit partitions (list of lists) or (n, xs) = Context.parallelize(xs, n)."""
+    if isinstance(parts, tuple):
+        return list(parts[1])
     return [x for p in parts for x in p]
 
 
+def mk_rdd(ctx, parts):
+    if isinstance(parts, tuple):
+        return ctx.parallelize(_fresh(list(parts[1])), parts[0])
+    return ctx._parallelize_partitions(_fresh(parts))  # pylint: disable=protected-access
+
+
 def kind(c):
+    if c[0] == SEQ:
+        return 'sequence'
+    if isinstance(c[1], tuple) or isinstance(c[2], tuple):
+        return OPS[c[0]] + '/sliced'
     return OPS[c[0]]
 
 
@@ -147,57 +171,84 @@ def _fresh(x):
     return x
 
 
-def call(c):
-    """Run the real method; returns (collected or dict, glom sizes or None)."""
-    op, lp, rp, np_, extra = c
-    ctx = Context()
-    a = ctx._parallelize_partitions(_fresh(lp))  # pylint: disable=protected-access
-    b = ctx._parallelize_partitions(_fresh(rp)) if op in BINARY else None  # pylint: disable=protected-access
+def apply_op(op, a, b, np_, extra):
+    """Call the real method on the RDD objects a (self) and b (other); returns the RDD (countByKey: the dict)."""
     if op == GROUP:
-        r = a.groupByKey(np_)
-    elif op == REDUCE:
-        r = a.reduceByKey(BIN[extra], np_)
-    elif op == FOLD:
+        return a.groupByKey(np_)
+    if op == REDUCE:
+        return a.reduceByKey(BIN[extra], np_)
+    if op == FOLD:
         z, f, _ = FOLDS[extra]
-        r = a.foldByKey(z(), BIN[f])
-    elif op == AGG:
+        return a.foldByKey(z(), BIN[f])
+    if op == AGG:
         z, s, cmb, _ = AGGS[extra]
-        r = a.aggregateByKey(z(), s, cmb, np_)
-    elif op == COUNT:
-        return list(a.countByKey().items()), None
-    elif op == COGROUP:
-        r = a.cogroup(b, np_)
-    elif op == JOIN:
-        r = a.join(b, np_)
-    elif op == LOJ:
-        r = a.leftOuterJoin(b, np_)
-    elif op == ROJ:
-        r = a.rightOuterJoin(b, np_)
-    elif op == FOJ:
-        r = a.fullOuterJoin(b, np_)
-    elif op == SUBK:
-        r = a.subtractByKey(b, np_)
-    elif op == SUB:
-        r = a.subtract(b, np_)
-    elif op == DISTINCT:
-        r = a.distinct(np_)
-    elif op == INTER:
-        r = a.intersection(b)
-    elif op == CART:
-        r = a.cartesian(b)
-    elif op == SORT:
-        r = a.sortByKey(bool(extra), np_)
-    elif op == SEMI:
-        r = a._leftSemiJoin(b)  # pylint: disable=protected-access
-    elif op == ANTI:
-        r = a._leftAntiJoin(b)  # pylint: disable=protected-access
-    else:
-        raise ValueError(op)
+        return a.aggregateByKey(z(), s, cmb, np_)
+    if op == COUNT:
+        return a.countByKey()
+    if op == COGROUP:
+        return a.cogroup(b, np_)
+    if op == JOIN:
+        return a.join(b, np_)
+    if op == LOJ:
+        return a.leftOuterJoin(b, np_)
+    if op == ROJ:
+        return a.rightOuterJoin(b, np_)
+    if op == FOJ:
+        return a.fullOuterJoin(b, np_)
+    if op == SUBK:
+        return a.subtractByKey(b, np_)
+    if op == SUB:
+        return a.subtract(b, np_)
+    if op == DISTINCT:
+        return a.distinct(np_)
+    if op == INTER:
+        return a.intersection(b)
+    if op == CART:
+        return a.cartesian(b)
+    if op == SORT:
+        return a.sortByKey(bool(extra), np_)
+    if op == SEMI:
+        return a._leftSemiJoin(b)  # pylint: disable=protected-access
+    if op == ANTI:
+        return a._leftAntiJoin(b)  # pylint: disable=protected-access
+    if op == REPART:
+        return a.repartition(np_)
+    if op == PARTBY:
+        return a.partitionBy(np_)
+    raise ValueError(op)
+
+
+def evaluate(op, r):
+    """Evaluate the result (twice: glom and collect must agree); returns (canonical elements, glom sizes or None)."""
+    if op == COUNT:
+        return list(r.items()), None
     parts = r.glom().collect()
     out = r.collect()
-    if flat(parts) != out and op not in SET_ORDERED:
+    if op in SET_ORDERED:
+        if _multiset(flat(parts)) != _multiset(out):
+            raise AssertionError('glom/collect disagree')
+    elif flat(parts) != out:
         raise AssertionError('glom/collect disagree')
-    return out, [len(p) for p in parts]
+    if r.count() != len(out):
+        raise AssertionError('count/collect disagree')
+    return canon_out(op, out), (None if op in (REPART, PARTBY) else [len(p) for p in parts])
+
+
+def call(c):
+    """Run the real method(s) on freshly built RDDs."""
+    op, lp, rp, np_, extra = c
+    ctx = Context()
+    a = mk_rdd(ctx, lp)
+    if op == SEQ:
+        b = mk_rdd(ctx, rp)
+        res = []
+        for sop, swapped in extra:
+            # each result is evaluated before the next method is called on the same two objects
+            r = apply_op(sop, b, a, np_, 0) if swapped else apply_op(sop, a, b, np_, 0)
+            res.append(evaluate(sop, r))
+        return res
+    b = mk_rdd(ctx, rp) if op in BINARY else None
+    return evaluate(op, apply_op(op, a, b, np_, extra))
 
 
 def canon_out(op, out):
@@ -207,15 +258,14 @@ def canon_out(op, out):
         return csorted([(k, [list(g[0]), list(g[1])]) for k, g in out])
     if op in (FOJ, SUBK):
         return group_canon(out)
-    if op in (DISTINCT, INTER):
+    if op in (DISTINCT, INTER, REPART, PARTBY):
         return csorted(out)
     return list(out)
 
 
 def impl(c):
     try:
-        out, sizes = call(c)
-        return (canon_out(c[0], out), sizes)
+        return call(c)
     except Exception as e:  # pylint: disable=broad-except
         return Err(type(e).__name__)
 
@@ -293,6 +343,8 @@ def spec(c):
         return [e for e in dict.fromkeys(xs) if e in ys], 'multiset'
     if op == CART:
         return [(a, b) for a in xs for b in ys], 'multiset'
+    if op in (REPART, PARTBY):
+        return list(xs), 'multiset'
     if op == SORT:
         try:
             return sorted(xs, key=lambda kv: kv[0], reverse=not extra), 'sorted'
@@ -314,14 +366,34 @@ STATS = {'oracle_judged': 0, 'oracle_not_judged': 0}
 
 
 def extra_evidence():
-    return {'oracle_judged_cases': STATS['oracle_judged'],
+    return {'sweep_cases_judged_by_oracle_alone': STATS.get('sweep_oracle_only', 0),
+            'oracle_judged_cases': STATS['oracle_judged'],
             'oracle_not_judged_cases': STATS['oracle_not_judged'],
             'oracle_not_judged_why': 'TypeError inputs (unhashable / unorderable keys) and reduce/fold/aggregate '
                                      'arguments outside Spark\'s contract (non-commutative, non-neutral zero): '
                                      'model-vs-implementation only'}
 
 
+def sub_case(c, step):
+    """The single call a step of a sequence amounts to."""
+    sop, swapped = step
+    return (sop, c[2], c[1], c[3], 0) if swapped else (sop, c[1], c[2], c[3], 0)
+
+
 def oracle(c, r):
+    if c[0] != SEQ:
+        return oracle_single(c, r)
+    if isinstance(r, Err):
+        return (f'sequence:raises-{r.name}', f'a sequence of join-family calls raised {r.name}')
+    for i, (step, ri) in enumerate(zip(c[4], r)):
+        o = oracle_single(sub_case(c, step), ri)
+        if o is not None:
+            before = ', '.join(OPS[s0] + ('(swapped)' if sw else '') for s0, sw in c[4][:i]) or 'nothing'
+            return ('sequence:' + o[0], f'step {i} evaluated after [{before}] on the same RDD objects: {o[1]}')
+    return None
+
+
+def oracle_single(c, r):
     op = c[0]
     name = OPS[op]
     want, mode = spec(c)
@@ -334,7 +406,8 @@ def oracle(c, r):
     got = result_elements(c, r)
     if _multiset(got) != _multiset(want):
         dup = _has_dup(c)
-        return (f'{name}:multiset' + (':dup-keys' if dup else ''),
+        sliced = isinstance(c[1], tuple) or isinstance(c[2], tuple)
+        return (f'{name}:multiset' + (':dup-keys' if dup else '') + (':slicing' if sliced and not dup else ''),
                 f'{name}: got {got!r}, Spark semantics give (as a multiset) {want!r}')
     if mode == 'groups':
         # the values grouped under one key keep their input order: already part of the element comparison
@@ -367,7 +440,7 @@ VALS_ANY = [0, 1, 2, 7, -3, None, 'x', 'y', '', [1], [], [1, 2], (1, 2), (), ('x
 VALS_HASHABLE = [0, 1, 2, 7, None, 'x', '', (1, 2), ()]
 VALS_INT = [0, 1, 2, 3, 7, -3, 10, -1]
 VALS_LIST = [[], [1], [2], [1, 2], ['x'], [None]]
-NPS = [None, None, 0, 1, 2, 3, 5, 17]
+NPS = [None, None, None, 0, 1, 2, 3, 5, 7, 11, 13, 17, 23, 32]
 
 
 def split(rng, xs, allow_zero=True):
@@ -461,7 +534,102 @@ def random_case(rng, op):
         elif op in (DISTINCT, INTER):
             tgt.insert(rng.randint(0, len(tgt)), rng.choice([bad, (1, [2])]))
     np_ = rng.choice(NPS) if op in HAS_NP or op == AGG else None
-    return (op, split(rng, xs), split(rng, ys) if op in BINARY else [], np_, extra)
+    lp = (rng.randint(0, 12), xs) if rng.random() < 0.15 else split(rng, xs)
+    if op not in BINARY:
+        rp = []
+    else:
+        rp = (rng.randint(0, 12), ys) if rng.random() < 0.15 else split(rng, ys)
+    return (op, lp, rp, np_, extra)
+
+
+# ---- (a) sequences of join-family calls on the same two RDD objects
+def sequence_cases(rng, tier):
+    out = []
+    # a fixed pair with keys missing on either side and duplicate keys, every ordered pair of (op, swapped) steps
+    a0 = [[(1, 'a'), (2, 'b')], [(1, 'c'), (3, 'd')]]
+    b0 = [[(1, 'x'), (4, 'y')], [(1, 'z')], [(3, 'w')]]
+    steps = [(o, sw) for o in JOIN_FAMILY for sw in (False, True)]
+    for s1 in steps:
+        for s2 in steps:
+            if tier == 'quick' and s1[0] != JOIN and s2[0] != JOIN and rng.random() < 0.6:
+                continue
+            out.append((SEQ, a0, b0, rng.choice([None, None, 2, 5]), [s1, s2]))
+    n = 300 if tier == 'quick' else 6000
+    for _ in range(n):
+        keys = rng.choice([[1, 2, 3, 4], [1, 2, None, (1, 2), 'a'], [0, 1]])
+        ka = rng.sample(keys, rng.randint(1, len(keys)))
+        kb = rng.sample(keys, rng.randint(1, len(keys)))
+        xs = [(rng.choice(ka), rng.choice(VALS_ANY)) for _ in range(rng.randint(0, 5))]
+        ys = [(rng.choice(kb), rng.choice(VALS_ANY)) for _ in range(rng.randint(0, 5))]
+        k = rng.choice([2, 2, 3, 3, 4])
+        st = [(rng.choice(JOIN_FAMILY), rng.random() < 0.35) for _ in range(k)]
+        r = rng.random()
+        if r < 0.5:
+            st[0] = (JOIN, rng.random() < 0.3)          # the inner join evaluated first
+        elif r < 0.7:
+            st[-1] = (JOIN, rng.random() < 0.3)         # ... or last (mirrored order)
+        if rng.random() < 0.25:
+            st.append(st[0])                            # the first call repeated at the end
+        lp = (rng.randint(1, 6), xs) if rng.random() < 0.15 else split(rng, xs)
+        rp = (rng.randint(1, 6), ys) if rng.random() < 0.15 else split(rng, ys)
+        out.append((SEQ, lp, rp, rng.choice([None, None, 1, 2, 5, 11]), st))
+    return out
+
+
+# ---- (b) boundary pairs (element count L, partition count n) of the slicing arithmetic
+SWEEP_OPS = [GROUP, REDUCE, JOIN, DISTINCT, SORT, REPART, PARTBY]
+SWEEP_L = range(1, 41)
+SWEEP_N = range(1, 33)
+NAMED_PAIRS = [(15, 11), (15, 13), (30, 11), (13, 23), (29, 25), (31, 29), (7, 32), (40, 32), (23, 12), (35, 27)]
+
+
+def sweep_case(op, L, n, sliced):
+    """L distinct keys / elements; sliced: the input is Context.parallelize(xs, n) and numPartitions is left to
+    default to the input's partition count; otherwise explicit input partitions and numPartitions = n."""
+    if op == DISTINCT:
+        xs = list(range(L))
+    elif op == SORT:
+        xs = [((i * 7 + 3) % L if L % 7 else L - 1 - i, i) for i in range(L)]
+    else:
+        xs = [(i, i) for i in range(L)]
+    ys = [[(i, -i) for i in range(0, L, 2)], [(L + 1, 0)]] if op == JOIN else []
+    if sliced and op not in (REPART, PARTBY):
+        return (op, (n, xs), ys, None, 1 if op == SORT else 0)
+    if sliced:
+        return (op, (n, xs), ys, n, 0)
+    cut = L // 3
+    return (op, [xs[:cut], xs[cut:]], ys, n, 1 if op == SORT else 0)
+
+
+def sweep_cases(full):
+    out = []
+    i = 0
+    for L in SWEEP_L:
+        for n in SWEEP_N:
+            if full or (L, n) in NAMED_PAIRS:
+                for op in SWEEP_OPS:
+                    out.append(sweep_case(op, L, n, True))
+                    out.append(sweep_case(op, L, n, False))
+            else:
+                out.append(sweep_case(SWEEP_OPS[i % len(SWEEP_OPS)], L, n, True))
+                out.append(sweep_case(SWEEP_OPS[(i + 3) % len(SWEEP_OPS)], L, n, False))
+                i += 1
+    return out
+
+
+def extra_checks(rng, tier, workdir):  # pylint: disable=unused-argument
+    """quick tier: the FULL (L, n) x op x form sweep judged by the oracle alone (the thorough tier puts the full
+    sweep through the correspondence as ordinary cases)."""
+    if tier != 'quick':
+        return
+    seen = set()
+    for c in sweep_cases(True):
+        r = impl(c)
+        STATS['sweep_oracle_only'] = STATS.get('sweep_oracle_only', 0) + 1
+        o = oracle(c, r)
+        if o is not None and o[0] not in seen:
+            seen.add(o[0])
+            yield (o[0], o[1][:300], f'case={c!r} result={r!r}'[:1500], c)
 
 
 def exhaustive_cases(rng, tier):
@@ -470,7 +638,7 @@ def exhaustive_cases(rng, tier):
     pairs = [(k, v) for k in (1, None) for v in (0, [1])]
     lists = [[]] + [[p] for p in pairs] + [[p, q] for p in pairs for q in pairs]
     maxparts = 2 if tier == 'quick' else 3
-    for op in range(len(OPS)):
+    for op in range(SINGLE_OPS):
         if op in (REDUCE, FOLD, AGG, SORT, DISTINCT, INTER):
             continue   # these need typed values / hashable elements; covered by the typed sweep below
         for xs in lists:
@@ -532,23 +700,32 @@ def generate(rng, tier):
     cases = list(CORPUS)
     cases += exhaustive_cases(rng, tier)
     n = 2500 if tier == 'quick' else 60000
-    ops = list(range(len(OPS)))
+    ops = list(range(SINGLE_OPS))
     for i in range(n):
         cases.append(random_case(rng, ops[i % len(ops)]))
+    cases += sequence_cases(rng, tier)
+    cases += sweep_cases(tier != 'quick')
     return cases
 
 
 def shrink_candidates(c):
     op, lp, rp, np_, extra = c
     xs, ys = flat(lp), flat(rp)
+    if op == SEQ:
+        # fewer steps first (a failing step together with what was evaluated before it)
+        for i in range(len(extra)):
+            if len(extra) > 1:
+                yield (op, lp, rp, np_, extra[:i] + extra[i + 1:])
     # fewer partitions first, then fewer elements
-    if len(lp) > 1:
+    if isinstance(lp, list) and len(lp) > 1:
         yield (op, [xs], rp, np_, extra)
-    if len(rp) > 1:
+    if isinstance(rp, list) and len(rp) > 1:
         yield (op, lp, [ys], np_, extra)
-    if np_ is not None:
+    if np_ is not None and op not in (REPART, PARTBY):
         yield (op, lp, rp, None, extra)
     for i in range(len(xs)):
-        yield (op, [xs[:i] + xs[i + 1:]], rp, np_, extra)
+        rest = xs[:i] + xs[i + 1:]
+        yield (op, (lp[0], rest) if isinstance(lp, tuple) else [rest], rp, np_, extra)
     for i in range(len(ys)):
-        yield (op, lp, [ys[:i] + ys[i + 1:]], np_, extra)
+        rest = ys[:i] + ys[i + 1:]
+        yield (op, lp, (rp[0], rest) if isinstance(rp, tuple) else [rest], np_, extra)
